@@ -226,6 +226,16 @@ func (i *Index) AddDesc(d Descriptor, opts ...IndexOpt) {
 			}
 		}
 	}
+	// prefer an entry that already has the same tag or referrer, replacing another entry for the digest would create a duplicate
+	if tag != "" || referrer != "" {
+		for mi, md := range i.Manifests {
+			if md.Digest == d.Digest && md.Annotations != nil &&
+				((tag != "" && md.Annotations[AnnotRefName] == tag) || (referrer != "" && md.Annotations[AnnotReferrerSubject] == referrer)) {
+				i.Manifests[mi] = d
+				return
+			}
+		}
+	}
 	// search for matching or compatible entry
 	for mi, md := range i.Manifests {
 		if md.Digest == d.Digest {
